@@ -14,6 +14,7 @@ import (
 	"encoding/json"
 	"fmt"
 	"os"
+	"runtime/debug"
 	"sync"
 	"sync/atomic"
 	"time"
@@ -1020,6 +1021,10 @@ func run(r *chk.Run) {
 		r.SetExhaustive(false)
 		return
 	}
+	// the enumeration keeps almost nothing alive and allocates per event:
+	// collect by a memory limit, not by growth ratio
+	defer debug.SetGCPercent(debug.SetGCPercent(-1))
+	defer debug.SetMemoryLimit(debug.SetMemoryLimit(3 << 30))
 	seed := r.Seed
 	filler(seed)
 	if why := rowdec.SelfTest(); why != "" {
